@@ -31,6 +31,10 @@ func checkC09(p *Prog, r *Report) {
 	monotoneCounterRule(p, ls, r, "R12", F("BindingManager.bindingNum"))
 	r.Rule("R5", "the per-device listing filters on the peer identity (SKI of the client feature's device), the per-feature listing on the server feature address")
 	listingRule(p, r, "R5", bindMgr)
+	r.Rule("R13", "the binding list reported to a peer is rendered entry by entry from the registry: id from the entry's Id, server address from its server feature, client address from its client feature, all of the same entry")
+	reportedListRule(p, r, "R13", bindMgr, "BindingManagementEntryDataType", "BindingId")
+	r.Rule("R14", "the outcome of AddBinding/RemoveBinding is the outcome of the node-management handler: a refused request is answered with an error")
+	outcomeForwardedRule(p, r, "R14", bindMgr)
 	hasBindingRule(p, r, "R6")
 	r.Rule("R11", "a delete is tied to the sending peer: the pre-check of RemoveBinding asks about the address of the feature resolved on the local device and the address of the feature resolved on the requesting device, not about address data copied from the request")
 	deletePrecheckRule(p, r, "R11")
